@@ -320,6 +320,55 @@ def check(ctx):
            detail=str([[pretty(a)[:30] + "=" + str(p_) for a, p_ in cond] for _, cond in cpy]),
            stmt="copy guard")
 
+    # ---- a FOREIGN node handed to a variable (new dist / value node) is checked for model
+    # membership before the variable touches it: a rejected assignment leaves it unchanged
+    n_foreign = 0
+    for sname in ("dist_node", "value_node"):
+        sfi = var.own_method(sname, "setter")
+        if sfi is None:
+            continue
+        n_foreign += 1
+        pname = [a for a in sfi.params() if a != "self"][0]
+        body = sfi.node.body
+
+        def touches(st):
+            out = []
+            for x in ast.walk(st):
+                if isinstance(x, (ast.Assign, ast.AugAssign, ast.AnnAssign)):
+                    tg = x.targets if isinstance(x, ast.Assign) else [x.target]
+                    for t_ in tg:
+                        if isinstance(t_, ast.Attribute) and isinstance(t_.value, ast.Name) \
+                                and t_.value.id == pname:
+                            out.append(x)
+                elif isinstance(x, ast.Call) and isinstance(x.func, ast.Attribute) \
+                        and isinstance(x.func.value, ast.Name) and x.func.value.id == pname \
+                        and x.func.attr.startswith(("_set", "_unset", "set_", "add_", "_add",
+                                                    "_clear", "update")):
+                    out.append(x)
+            return out
+
+        def is_guard(st):
+            return (isinstance(st, ast.If) and any(isinstance(b, ast.Raise) for b in st.body)
+                    and any(isinstance(x, ast.Attribute) and x.attr == "model"
+                            and isinstance(x.value, ast.Name) and x.value.id == pname
+                            for x in ast.walk(st.test))
+                    and not isinstance(st.test, ast.UnaryOp))
+        g_idx = [i for i, st in enumerate(body) if is_guard(st)]
+        m_idx = [(i, t_) for i, st in enumerate(body) for t_ in touches(st)]
+        rebinds = [i for i, st in enumerate(body) for x in ast.walk(st)
+                   if isinstance(x, ast.Assign) and any(isinstance(t_, ast.Name) and t_.id == pname
+                                                        for t_ in x.targets)]
+        ok_g = bool(g_idx) and bool(m_idx) and all(i > g_idx[0] for i, _ in m_idx) \
+            and all(i < g_idx[0] for i in rebinds)
+        first = min(m_idx, key=lambda z: z[0])[1] if m_idx else None
+        ctx.ob("C15.R1", sfi, f"Var.{sname} setter: the node handed in is checked for model "
+                              f"membership (and rejected) before the variable writes "
+                              f"anything to it", ok_g,
+               detail=f"guard at statement {g_idx}, first write to the foreign node at "
+                      f"statement {[i for i, _ in m_idx][:1]}", node=first,
+               stmt=f"{sname} setter touches the foreign node before the membership check")
+    ctx.require_min("Var setters that adopt a foreign node", n_foreign, 2)
+
     # ---- duplicate names are rejected by the Model constructor itself
     from ..domains import concrete as _cc
     dup_kinds = {}
@@ -437,3 +486,7 @@ def check(ctx):
     ok = any(is_call(val, "weakref.ref") and val[2] == (n("model"),)
              for loc, val, _, _ in rsm.stores)
     ctx.ob("C15.R7", sm, "the model is held through a weak reference", ok)
+
+    # ---- shared mechanisms: the neighbour's rules run as obligations of this property
+    ctx.include("C01", "C15.R10", only=['C01.R6'])
+    ctx.rule("R10", "shared mechanisms, run as obligations of this property: targeted updates run in topological order too (C01.R6).")
